@@ -142,7 +142,7 @@ def match_known(prop: str, key: str, known: List[Dict[str, Any]]):
   for k in known:
     if k.get('property') != prop or k.get('status') != 'known':
       continue
-    if k.get('key') == key:
+    if k.get('key') == key or key in k.get('keys', ()):
       return k
   return None
 
